@@ -8,20 +8,20 @@ _HIST = ('seeded swarm scenarios (chain 2..12 elements, run/continue/reset '
 REG = {
     'C01': dict(
         oracle='c01', profiles=[('dyn', 3, None), ('lock', 1, None)],
-        quick=4000, thorough=200000,
+        quick=12000, thorough=300000,
         vacuity=['pair_instants', 'held_instants', 'continued', 'F_STOP',
                  'F_RESET'],
         rule=_HIST + 'non-trivial = at least one adjacent pair compared at a '
         'recorded instant'),
     'C02': dict(
         oracle='c02', profiles=[('dyn', 3, None), ('lock', 1, None)],
-        quick=4000, thorough=200000,
+        quick=12000, thorough=300000,
         vacuity=['instants', 'eta_lt_1_pairs', 'continuations', 'F_RESET'],
         rule=_HIST + 'non-trivial = at least one instant with every torque '
         'relation evaluated'),
     'C03': dict(
         oracle='c03', profiles=[('dyn', 3, None), ('lock', 1, None)],
-        quick=4000, thorough=200000,
+        quick=12000, thorough=300000,
         vacuity=['instants', 'held_instants', 'continuation_boundaries',
                  'F_RESET'],
         rule=_HIST + 'non-trivial = at least one consecutive instant pair '
@@ -30,7 +30,7 @@ REG = {
 
 REG['C11'] = dict(
     oracle='c11', profiles=[('grid', 1, {'mixed_time_units': True})],
-    quick=6000, thorough=300000,
+    quick=20000, thorough=600000,
     vacuity=['segments', 'continued', 'F_UNITSWITCH', 'stopped_early',
              'full_length'],
     rule='decimal steps dt = m*10^-e (m 1..999, e 0..4), n 2..120 (thorough '
@@ -43,7 +43,7 @@ REG['C11'] = dict(
 REG['C12'] = dict(
     oracle='c12', profiles=[('sched', 1, {'mixed_time_units': True,
                                           'differential': True})],
-    quick=4000, thorough=150000,
+    quick=10000, thorough=250000,
     vacuity=['compared_instants', 'pairs_split', 'pairs_rerun',
              'unit_switch_splits', 'rerun_same_solver', 'rerun_new_solver',
              'segment_ended_held', 'epoch_ended_held'],
@@ -55,7 +55,7 @@ REG['C12'] = dict(
 
 REG['C16'] = dict(
     oracle='c16', profiles=[('stop', 1, None)],
-    quick=3000, thorough=100000,
+    quick=8000, thorough=200000,
     vacuity=['stop_segments', 'F_STOP_checked', 'never_fired',
              'continued_with_stop', 'op_gt', 'op_ge', 'op_eq', 'op_lt',
              'op_le', 'sensor_encoder', 'sensor_tachometer',
@@ -69,7 +69,7 @@ REG['C16'] = dict(
 
 REG['C17'] = dict(
     oracle='c17', profiles=[('tv', 3, None), ('dyn', 1, None)],
-    quick=4000, thorough=150000,
+    quick=10000, thorough=250000,
     vacuity=['dumps_checked', 'after_run', 'after_reset', 'after_continuation',
              'F_STOP', 'exports', 'snapshots',
              'subset_WormWheel:m', 'subset_WormWheel:mb', 'subset_WormGear:',
@@ -82,7 +82,7 @@ REG['C17'] = dict(
     'dump checked variable by variable')
 REG['C18'] = dict(
     oracle='c18', profiles=[('query', 1, None)],
-    quick=3000, thorough=100000,
+    quick=8000, thorough=200000,
     vacuity=['snapshots', 'exports', 'snapshot_on_instant', 'snapshot_between',
              'snapshot_selected_vars', 'snapshot_default_vars',
              'snapshot_values', 'export_rows', 'F_IO',
@@ -98,7 +98,7 @@ REG['C18'] = dict(
 
 REG['C13'] = dict(
     oracle='c13', profiles=[('lock', 4, None), ('dyn', 1, None)],
-    quick=5000, thorough=200000,
+    quick=12000, thorough=300000,
     vacuity=['instants', 'held_instants', 'engage', 'release',
              'zero_duty_instants', 'duty_sign_changes', 'overload_instants',
              'non_self_locking_instants', 'F_RESET', 'continuations'],
@@ -113,7 +113,7 @@ REG['C13'] = dict(
 REG['C14'] = dict(
     oracle='c14', profiles=[('ctrl', 3, None), ('lock', 1, None),
                             ('dyn', 1, None)],
-    quick=5000, thorough=200000,
+    quick=12000, thorough=300000,
     vacuity=['controlled_instants', 'uncontrolled_instants', 'conflicts',
              'F_CONFLICT', 'clipped', 'defaulted', 'applicable_1',
              'F_BOUNDARY_out_of_range_proposals', 'F_BOUNDARY_on_saturation'],
@@ -126,7 +126,7 @@ REG['C14'] = dict(
 
 REG['C15'] = dict(
     oracle='c15', profiles=[('ctrl', 1, None)],
-    quick=5000, thorough=200000,
+    quick=12000, thorough=300000,
     vacuity=['rule_calls', 'active_ConstantPWM', 'active_ReachAngularPosition',
              'active_StartProportional', 'active_StartLimitCurrent',
              'limit_current_instants', 'F_BOUNDARY_window_edge',
@@ -140,7 +140,7 @@ REG['C15'] = dict(
 
 REG['C08'] = dict(
     oracle='c08', profiles=[('motor', 3, None), ('ctrl', 1, None)],
-    quick=5000, thorough=200000,
+    quick=12000, thorough=300000,
     vacuity=['law_instants', 'current_instants', 'dead_zone_instants',
              'F_BOUNDARY_dead_zone_edge', 'beyond_no_load_speed',
              'negative_speed', 'negative_duty', 'mirror_runs',
@@ -159,7 +159,7 @@ _DECL = ('declaration machine: a pool of elements of every kind, 1..30 '
          'post-assembly re-declarations; ')
 REG['C10'] = dict(
     oracle='c10', profiles=[('decl', 1, None)],
-    quick=6000, thorough=300000,
+    quick=20000, thorough=600000,
     vacuity=['decls_judged', 'accepted', 'rejected', 'rerouting',
              'accepted_joint', 'accepted_gear', 'accepted_worm',
              'self_locking_True', 'self_locking_False',
@@ -175,7 +175,7 @@ REG['C10'] = dict(
     stubs=['none (declaration calls only)'])
 REG['C20'] = dict(
     oracle='c20', profiles=[('decl', 1, None)],
-    quick=6000, thorough=300000,
+    quick=20000, thorough=600000,
     vacuity=['assemblies', 'motor_drives_nothing', 'duplicate_names_in_chain',
              'duplicate_names_outside_chain', 'self_locking_True',
              'self_locking_False', 'rerouted_before_assembly',
@@ -190,7 +190,7 @@ _H = {'house': True, 'mixed_time_units': False, 'differential': True}
 REG['C07'] = dict(
     oracle='c07', profiles=[('dyn', 3, _H), ('ctrl', 2, _H), ('lock', 1, _H),
                             ('stop', 1, _H), ('query', 1, _H)],
-    quick=3000, thorough=120000,
+    quick=8000, thorough=200000,
     vacuity=['builds_compared', 'compared_instants', 'snapshots_compared',
              'unit_Angle:rad', 'unit_Angle:arcsec', 'unit_Angle:rot',
              'unit_InertiaMoment:gcm^2', 'unit_Torque:kgfcm',
@@ -208,7 +208,7 @@ REG['C07'] = dict(
 
 REG['C09'] = dict(
     oracle='c09', profiles=[('stress', 3, None), ('tv', 1, None)],
-    quick=4000, thorough=150000,
+    quick=10000, thorough=250000,
     vacuity=['flag_checks', 'lewis_checks', 'force_samples', 'bending_samples',
              'contact_samples', 'role_MatingMaster', 'role_MatingSlave',
              'negative_reference_torque', 'F_MISSINGDATA_expected',
@@ -226,7 +226,7 @@ REG['C09'] = dict(
 
 REG['C04'] = dict(
     oracle='c04', profiles=[('conv', 1, None)],
-    quick=1500, thorough=40000,
+    quick=2500, thorough=40000,
     vacuity=['families', 'runs', 'ratios', 'split_runs', 'load_above_stall',
              'negative_duty'],
     thorough_cfg={'fine': True},
@@ -241,7 +241,7 @@ REG['C04'] = dict(
 
 REG['C19'] = dict(
     oracle='c19', profiles=[('quant', 1, None)],
-    quick=20000, thorough=1000000,
+    quick=100000, thorough=3000000,
     vacuity=['steps', 'op_new', 'op_add', 'op_sub', 'op_mul', 'op_div',
              'op_abs', 'op_neg', 'op_to', 'inplace_conversions',
              'raised_ValueError', 'raised_TypeError', 'F_BADPARAM',
